@@ -336,6 +336,10 @@ SyntaxVisitor::Action DeclarationBinder::visitBasicTypeSpecifier(const BasicType
             case SyntaxKind::Keyword_ExtGNU___complex__:
                 switch (curBasicTyK) {
                     case BasicTypeKind::Long_S:
+                        // The double of a long double _Complex may still follow.
+                        F_.inImplicitDoubleTySpec_ = true;
+                        curBasicTy->resetBasicTypeKind(BasicTypeKind::LongDoubleComplex);
+                        return Action::Skip;
                     case BasicTypeKind::LongDouble:
                         curBasicTy->resetBasicTypeKind(BasicTypeKind::LongDoubleComplex);
                         return Action::Skip;
